@@ -649,7 +649,7 @@ def apply_contract_at_call(ctx, fr, path, f: FuncRef, contract: Contract, env, n
             res = _fresh_result(ctx, p, f, contract, env)
         p.note(f"callee contract {contract.target}" + ("" if contract.verify else " (ASSUMED, not verified)"))
         forced = ctx.current is not None and contract.target.split(":")[1] in getattr(ctx.current.contract, "log_calls", [])
-        if "EXT" in p.ghost and contract.log and (forced or not contract.deductive_body_known()):
+        if "EXT" in p.ghost and not ctx.spec_mode and contract.log and (forced or not contract.deductive_body_known()):
             # calls that are only known through an assumed / bounded contract are recorded in the activation's call log
             # like external calls: (target, arguments in signature order, result)
             names = [a.arg for a in f.node.args.posonlyargs + f.node.args.args + f.node.args.kwonlyargs]
